@@ -168,7 +168,8 @@ CLAIMED.update({
                   "generation+1 under one write guard and notifies after release; the remap cache is overwritten only on the "
                   "generation > cached edge; no function of the module nests the inner and cache locks; and the hash-join gate can enable "
                   "probe-side dynamic filters only for join types where dropping unmatched probe rows is an identity in the reference "
-                  "model (exhaustive over 10 types). This decides the second sentence of the property and one gate of the first; the "
+                  "model (exhaustive over 10 types); every publication path of a publisher type that widens its filter through an expr->expr method of the type "
+                  "(the join accumulator's NULL-preserving widening) does so. This decides the second sentence of the property and two gates of the first; the "
                   "contents of bounds / IN lists and timing are not decided."),
     },
 })
@@ -193,7 +194,8 @@ CLAIMED.update({
                   "thread spawning functions (tokio spawn family, JoinSet::spawn*, Handle/Runtime::spawn*, std::thread) are called only "
                   "inside datafusion-common-runtime and no struct outside it stores a JoinHandle/JoinSet; ReceiverStreamBuilder::build "
                   "moves its JoinSet into the returned stream; each of the 14 types declaring SchedulingType::Cooperative reaches a yield "
-                  "source in execute/open (two frozen constant/one-shot streams). Necessary conditions for 'drop stops background work' "
+                  "source in execute/open (two frozen constant/one-shot streams), and an operator that declares it unconditionally has no execute() path "
+                  "that returns the child stream untouched without a yield source. Necessary conditions for 'drop stops background work' "
                   "and for cancellation to take effect; bounded time and per-drop-point behaviour are not decided."),
     },
 })
@@ -339,7 +341,7 @@ CLAIMED.update({
                   "recorded what it returns; on all paths of the 45 functions that register output metrics at most one registration is made "
                   "per produced stream (wrapper and wrapped stream cannot both count: the preserve-order repartition case); spilled_rows is "
                   "written only by InProgressSpillFile::append_batch, exactly once per successful write, with the row count that write "
-                  "returned. Necessary conditions of 'reported rows = emitted rows'; the counts themselves and double counting across "
+                  "returned; a recorded poll is not handed to another batch-returning function afterwards (recorded last). Necessary conditions of 'reported rows = emitted rows'; the counts themselves and double counting across "
                   "dyn-dispatched operator boundaries are not decided."),
     },
     "C37": {
